@@ -30,9 +30,6 @@ pub(crate) struct Root {
     pub nodes: RefCell<SlotMap<NodeId, ReactiveNode>>,
     /// A list of signals who need their values to be propagated after the batch is over.
     pub node_update_queue: RefCell<Vec<NodeId>>,
-    /// Whether we are currently batching signal updates. If this is true, we do not run
-    /// `effect_queue` and instead wait until the end of the batch.
-    pub batching: Cell<bool>,
 }
 
 thread_local! {
@@ -44,6 +41,12 @@ thread_local! {
     /// Which computation is tracking is a fact about the call stack of the thread, not about a
     /// root: `untrack` may be called while another root is the current one.
     static TRACKING_ROOT: Cell<*const Root> = const { Cell::new(std::ptr::null()) };
+    /// Whether a `batch` is running on this thread. If this is true, we do not propagate updates
+    /// and instead wait until the end of the batch. Like tracking, batching belongs to the thread:
+    /// writes to signals of every root are deferred.
+    static BATCHING: Cell<bool> = const { Cell::new(false) };
+    /// The roots that have queued updates in the running batch.
+    static BATCHED_ROOTS: RefCell<Vec<&'static Root>> = const { RefCell::new(Vec::new()) };
 }
 
 /// Whether reads of signals of `root` are tracked right now.
@@ -72,7 +75,6 @@ impl Root {
             root_node: Cell::new(NodeId::null()),
             nodes: RefCell::new(SlotMap::default()),
             node_update_queue: RefCell::new(Vec::new()),
-            batching: Cell::new(false),
         };
         let _ref = Box::leak(Box::new(this));
         _ref.reinit();
@@ -98,7 +100,6 @@ impl Root {
         // destroyed nodes, and stale handles would report those as alive.
         let leftover: Vec<_> = self.nodes.borrow_mut().drain().collect();
         drop(leftover);
-        self.batching.set(false);
 
         // Create a new root node.
         let root_node = create_child_scope(|| {});
@@ -246,8 +247,14 @@ impl Root {
     ///
     /// If we are currently batching, defers updating the signal until the end of the batch.
     pub fn propagate_updates(&'static self, start_node: NodeId) {
-        if self.batching.get() {
+        if BATCHING.with(|b| b.get()) {
             self.node_update_queue.borrow_mut().push(start_node);
+            BATCHED_ROOTS.with(|roots| {
+                let mut roots = roots.borrow_mut();
+                if !roots.iter().any(|root| std::ptr::eq(*root, self)) {
+                    roots.push(self);
+                }
+            });
         } else {
             // Set the global root.
             let prev = Root::set_global(Some(self));
@@ -282,16 +289,12 @@ impl Root {
         buf.push(current_id);
     }
 
-    /// Sets the batch flag to `true`.
-    fn start_batch(&self) {
-        self.batching.set(true);
-    }
-
-    /// Sets the batch flag to `false` and run all the queued effects.
+    /// Run all the queued updates of this root.
     fn end_batch(&'static self) {
-        self.batching.set(false);
         let nodes = self.node_update_queue.take();
+        let prev = Root::set_global(Some(self));
         self.propagate_node_updates(&nodes);
+        Root::set_global(prev);
     }
 }
 
@@ -443,14 +446,37 @@ pub fn on_cleanup(f: impl FnOnce() + 'static) {
 /// # });
 /// ```
 pub fn batch<T>(f: impl FnOnce() -> T) -> T {
-    let root = Root::global();
-    if root.batching.get() {
+    let _ = Root::global();
+    if BATCHING.with(|b| b.replace(true)) {
         // Nested batch: updates are flushed when the outermost batch ends.
         return f();
     }
-    root.start_batch();
+    // The flag belongs to the thread: it must not stay set if `f` unwinds, and what `f` queued
+    // must not be flushed by whichever batch comes next on this thread.
+    struct Reset;
+    impl Drop for Reset {
+        fn drop(&mut self) {
+            BATCHING.with(|b| b.set(false));
+            if std::thread::panicking() {
+                for root in BATCHED_ROOTS.with(|roots| roots.take()) {
+                    let _ = root.node_update_queue.take();
+                }
+            }
+        }
+    }
+    let reset = Reset;
     let ret = f();
-    root.end_batch();
+    drop(reset);
+    // Flush the queued updates of every root that was written to, each in its own root.
+    loop {
+        let roots = BATCHED_ROOTS.with(|roots| roots.take());
+        if roots.is_empty() {
+            break;
+        }
+        for root in roots {
+            root.end_batch();
+        }
+    }
     ret
 }
 
